@@ -45,6 +45,15 @@ class RecSim(Sim):
             setattr(obj, name, w)
         wrap(self.starter, 'in_progress', 'S'); wrap(self.stopper, 'in_progress', 'P')
         wrap(self.context, 'conflicting', 'C')
+        orig_acc = self.state_modes.accept_master
+        def acc():
+            had = bool({m for m in self.state_modes.get_master_identifiers() if m})
+            r = orig_acc()
+            if had:
+                m = self.state_modes.master_identifier
+                self.oracle.append(f'A{self.idx[m]}' if m else 'A999')
+            return r
+        self.state_modes.accept_master = acc
         orig_inv = self.context.invalidate_failed
         def inv():
             r = orig_inv()
@@ -217,7 +226,7 @@ def gen_params(rnd, nmax=4):
     return n, opts
 
 
-def run_schedule(seed, rec, nmax=4, max_ticks=40, faults_max=10, quiet_ticks=0, sim_cls=RecSim, allow_restart=True, mismatch=0.0, inject=False, sim_cls_name=None):
+def run_schedule(seed, rec, nmax=4, max_ticks=40, faults_max=10, quiet_ticks=0, sim_cls=RecSim, allow_restart=True, mismatch=0.0, inject=False, sim_cls_name=None, heal_at_end=False, rpc_names=('restart', 'shutdown', 'end_sync', 'end_sync')):
     """ one generated cluster schedule; returns (sims, net, opts, n, info) """
     rnd = random.Random(seed)
     if sim_cls_name:
@@ -249,8 +258,12 @@ def run_schedule(seed, rec, nmax=4, max_ticks=40, faults_max=10, quiet_ticks=0, 
     lo, hi = T[0] + 6 * PERIOD, end_faults - 4 * PERIOD
     fault_times = sorted(rnd.randint(lo, hi) for _ in range(faults)) if hi > lo else []
     info = {'faults': [], 'end_faults': end_faults}
+    healed = False
     while T[0] < end:
         T[0] += rnd.randint(1, 40)
+        if heal_at_end and not healed and T[0] >= end_faults:
+            healed = True
+            if net.cut: net.cut.clear(); rec.rec(sims, 'heal')
         while fault_times and fault_times[0] <= T[0]:
             fault_times.pop(0)
             kind = rnd.choice(['crash', 'cut', 'heal', 'hold', 'rpc', 'restart'] + (['inject'] * 4 if inject else []))
@@ -291,7 +304,7 @@ def run_schedule(seed, rec, nmax=4, max_ticks=40, faults_max=10, quiet_ticks=0, 
                 o = rnd.choice([x for x in sims if x is not s])
                 held[(s.k, o.identifier)] = T[0] + rnd.randint(PERIOD // 4, 2 * PERIOD)
             elif kind == 'rpc' and s.identifier not in net.down:
-                name = rnd.choice(['restart', 'shutdown', 'end_sync', 'end_sync'])
+                name = rnd.choice(list(rpc_names))
                 with watchdog(30):
                     if name == 'end_sync':
                         m = rnd.choice(['', f'10.0.0.{rnd.randint(1, n)}'])
